@@ -111,12 +111,17 @@ def isContainer : T → Bool
   | .tup _ (_ :: _) => true
   | _ => false
 
-/-- Step 3a restriction on a chain of several terms: no term but the last is a bare identifier (so the
-    chain is a JUXTAPOSITION chain, argument-first application `[x, y] f`, never a `~>` pipeline and
-    never a "tall" step) and the last term is not a tuple with fields (so `chain_doc` never takes its
-    flattened-head path). The formatter and parser MODELS cover all chains; the theorems need this. -/
-def chainOk (first : T) (more : List T) : Bool :=
-  ((first :: more).dropLast.all fun t => !isIdent t) && !isContainer ((first :: more).getLastD first)
+/-- Restriction on a chain of several terms (everywhere): the last term is not a tuple with fields, so
+    that `chain_doc` never takes its flattened-head path. The formatter and parser MODELS cover all
+    chains; the theorems need this. -/
+def chainOk (first : T) (more : List T) : Bool := !isContainer ((first :: more).getLastD first)
+
+/-- not a pipeline: no term but the last is a bare identifier (a call-ender). A pipeline that breaks
+    is a "tall" step and is set off by blank lines from the other steps of a sequence — the theorems
+    allow pipelines in field values and as the only step of a program, not among several steps. -/
+def noPipe : T → Bool
+  | .chain f more => (f :: more).dropLast.all fun t => !isIdent t
+  | _ => true
 
 /-- an optional name is in the language of the given lexical class -/
 def optOk (ok : Str → Bool) : Option Str → Prop
@@ -265,8 +270,10 @@ def sequenceDoc : List T → Doc
     chains `ts` (the parser makes ONE sequence of all the comma/newline-separated expressions) -/
 def programDoc (ts : List T) : Doc := .concat [sequenceDoc ts]
 
-/-- a program of the fragment: at least one step, all well-formed -/
-def WFProg (ts : List T) : Prop := ts ≠ [] ∧ ∀ t ∈ ts, T.WF t
+/-- a program of the fragment: at least one step, all well-formed; several steps only without
+    pipelines among them (`noPipe`) -/
+def WFProg (ts : List T) : Prop :=
+  ts ≠ [] ∧ (∀ t ∈ ts, T.WF t) ∧ (ts.length = 1 ∨ ∀ t ∈ ts, noPipe t = true)
 
 /-- `format_program` on the fragment: lay out at `WIDTH`, collapse blank lines, expand the (absent)
     literal placeholders. -/
